@@ -18,11 +18,7 @@ Print Assumptions C01_split_concat.
 Theorem C01_read_any_chunking : forall chunks b e,
   (exists lb, lbuf_rd lbuf_make chunks b e = Some lb /\ ln lb = split_lines (concat chunks)) /\
   (forall lb chunks', concat chunks = concat chunks' -> lbuf_rd lb chunks b e = lbuf_rd lb chunks' b e).
-Proof.
-  exact (fun chunks b e => conj
-    (match lbuf_rd_empty chunks b e with ex_intro _ lb (conj A (conj B _)) => ex_intro _ lb (conj A B) end)
-    (fun lb c2 H => lbuf_rd_any_chunking lb chunks c2 b e H)).
-Qed.
+Proof. exact read_any_chunking. Qed.
 Print Assumptions C01_read_any_chunking.
 
 (* the written file is exactly the addressed lines, for every previous content of the target
